@@ -1,3 +1,4 @@
+mod btsim;
 mod chaos;
 mod crashsim;
 mod eng;
